@@ -281,7 +281,7 @@ func corr(c *hc.Ctx) []*canvas.Path {
 				a, b := res[s.i].Copy(), res[s.j].Copy()
 				before = append([]float64{}, b.Data()...)
 				msg = hc.Try(func() { p = a.Append(b).Copy() })
-				// Append preserves strict well-formedness (theorem append_strict, /repo 83194f5): two
+				// Append preserves strict well-formedness (theorem append_strict, /repo 7353487): two
 				// consecutive MoveTos after Append are a failure again
 				prim = primitiveOnly[s.i] && primitiveOnly[s.j]
 				taint = taints[s.i]
